@@ -1,4 +1,24 @@
-"""C03 worker: fix variables on the implementation, observe coefficients before/after."""
+"""C03 worker: fix variables on the implementation, observe coefficients before/after.
+
+Coverage (property clause -> stream):
+  fix_variable / fix_variables on a BQM      kinds bqm64 / bqm32 / bqmobj (one variable -> fix_variable, several -> fix_variables
+                                             given as dict or as list of pairs), also through the live view of the other vartype
+  ... on a QM                                kind qm (float64 and float32 storage: "qdtype")
+  ... on a CQM, in place                     cqm_inplace (fix_variable one by one), cqm_inplace_many (fix_variables(inplace=True))
+  ... on a CQM, new model                    cqm_copy (fix_variables(inplace=False)); receiver compared with a deep copy, and the
+                                             result is edited afterwards to show it shares no state with the receiver ("alias")
+  `fixed` argument forms                     "fix_form": dict / list of pairs / generator of pairs (CQM), dict / list (BQM, QM)
+  rarely used keyword                        the deprecated `cascade=` of CQM.fix_variable(s) ("cascade_kw"), legacy {} return value
+  nothing fixed                              nf = 0 (all kinds except the one-by-one path, where it is the empty loop)
+  every variable (of an expression) fixed    nf up to n; expressions keep a random 70% of the variables
+  squared terms, constants                   rand_desc self-loops on INTEGER, offsets
+  variables in only some expressions         expressions over random subsets; variable orders of expressions are shuffled
+                                             independently of the CQM's order ("expr_shuffled"), labels sometimes range(n)
+  sense / rhs / weight / penalty / label     compared in python and inside Coq (mcon_sim); 30% soft constraints; discrete marks
+  PolyFixedVariableComposite                 kind poly (the fixing helper on the dict items) and kind poly_composite (sample_poly
+                                             over ExactPolySolver: every returned row carries the fixed values and the energy of
+                                             the ORIGINAL polynomial at that row, incl. all variables fixed / nothing fixed / None)
+"""
 import copy
 import json
 from fractions import Fraction
@@ -11,7 +31,7 @@ from wlib import cq, clist, cnat, cpair
 import gen
 from gen import F, enc_label, dec_label, LabelTable, coq_obs
 
-KINDS = ['bqm64', 'bqm32', 'bqmobj', 'qm', 'cqm_inplace', 'cqm_inplace_many', 'cqm_copy', 'poly']
+KINDS = ['bqm64', 'bqm32', 'bqmobj', 'qm', 'cqm_inplace', 'cqm_inplace_many', 'cqm_copy', 'cqm_copy', 'poly', 'poly_composite']
 
 
 def rand_value(rng, vt):
@@ -26,6 +46,20 @@ def rand_value(rng, vt):
 
 def gen_case(rng, tier):
     kind = rng.choice(KINDS)
+    if kind == 'poly_composite':
+        n = rng.randint(1, 4)
+        labels = gen.rand_labels(rng, n)
+        vartype = rng.choice(['BINARY', 'SPIN'])
+        terms = []
+        if rng.random() < 0.6:
+            terms.append([[], str(rng.dyadic())])
+        for _ in range(rng.randint(0, 6)):
+            k = rng.randint(1, min(3, n))
+            terms.append([[enc_label(x) for x in rng.sample(labels, k)], str(rng.dyadic())])
+        r = rng.random()
+        nf = n if r < 0.2 else (0 if r < 0.3 else rng.randint(0, n))
+        fixes = [[enc_label(l), rand_value(rng, vartype)] for l in rng.sample(labels, nf)]
+        return {"kind": kind, "vartype": vartype, "terms": terms, "fixes": fixes, "none": nf == 0 and rng.random() < 0.5}
     if kind == 'poly':
         n = rng.randint(1, 6)
         labels = gen.rand_labels(rng, n)
@@ -45,7 +79,8 @@ def gen_case(rng, tier):
         exprs = [desc]
         allvars = desc["vars"]
     elif kind == 'qm':
-        desc = gen.rand_desc(rng, nmax=6, nmin=1)
+        qdtype = rng.choice(['f64', 'f64', 'f32'])
+        desc = gen.rand_desc(rng, nmax=6, nmin=1, kmax=4 if qdtype == 'f32' else 8, jmax=1 if qdtype == 'f32' else 2)
         exprs = [desc]
         allvars = desc["vars"]
     else:
@@ -73,11 +108,20 @@ def gen_case(rng, tier):
             if rng.random() < 0.3:
                 e["weight"] = str(abs(rng.dyadic(8, 1)) + 1)
                 e["penalty"] = rng.choice(['linear', 'quadratic']) if not e["quad"] or True else 'linear'
+            if rng.random() < 0.5:
+                # the expression's own variable order is independent of the CQM's
+                vs = list(e["vars"])
+                rng.shuffle(vs)
+                e["vars"] = vs
+                e["shuffled"] = True
             exprs.append(e)
-    nf = rng.randint(1, len(allvars))
+    nf = rng.randint(1, len(allvars)) if rng.random() < 0.93 else 0
     chosen = rng.sample(allvars, nf)
     fixes = [[v[0], rand_value(rng, v[1])] for v in chosen]
-    c = {"kind": kind, "exprs": exprs, "allvars": allvars, "fixes": fixes}
+    c = {"kind": kind, "exprs": exprs, "allvars": allvars, "fixes": fixes,
+         "fix_form": rng.choice(['dict', 'dict', 'pairs', 'gen'])}
+    if kind == 'qm':
+        c["qdtype"] = qdtype
     if kind.startswith('cqm'):
         # a one-hot constraint marked discrete over some binary variables: fixing inside it exercises the markers
         bins = [v[0] for v in allvars if v[1] == 'BINARY']
@@ -184,6 +228,37 @@ def raw_mcqm(cqm, labels):
     return "(Expr.mkM %s %s %s)" % (info, raw_mexpr(cqm.objective), clist(cons))
 
 
+def run_poly_composite(c, fixes, feats):
+    """PolyFixedVariableComposite(ExactPolySolver()).sample_poly(poly, fixed_variables=...)"""
+    T = LabelTable()
+    poly = dimod.BinaryPolynomial({tuple(dec_label(x) for x in t): float(F(b)) for t, b in c["terms"]}, c["vartype"])
+    terms = [(list(k), F(v)) for k, v in poly.items()]
+    sampler = dimod.PolyFixedVariableComposite(dimod.ExactPolySolver())
+    fv = None if c.get("none") else dict(fixes)
+    ss = sampler.sample_poly(poly, fixed_variables=fv)
+    py_fail = None
+    labels = list(ss.variables)
+    free = [v for v in poly.variables if v not in dict(fixes)]
+    if set(labels) != set(poly.variables) | set(dict(fixes)):
+        py_fail = f"returned variables {labels!r}, expected the polynomial's plus the fixed ones"
+    want_rows = 2 ** len(free) if (free or not fixes) else 1
+    if free == [] and not fixes:
+        want_rows = len(ss)           # a variable-free polynomial with nothing fixed: whatever the child returns
+    if len(ss) != want_rows:
+        py_fail = f"{len(ss)} rows returned, expected {want_rows} (free variables {free!r})"
+    if len({tuple(r) for r in ss.record.sample.tolist()}) != len(ss):
+        py_fail = "duplicate rows returned"
+    hp = clist([cpair(clist([cnat(T.idx(x)) for x in k]), cq(b)) for k, b in terms])
+    cf = clist([cpair(cnat(T.idx(l)), cq(F(v))) for l, v in fixes])
+    ls = clist([cnat(T.idx(v)) for v in labels])
+    rows = clist([clist([cq(F(x)) for x in r]) for r in ss.record.sample])
+    en = clist([cq(F(e)) for e in ss.record.energy])
+    feats["all_fixed"] = bool(fixes) and not free
+    feats["none"] = bool(c.get("none"))
+    return {"coq": f"(mkPCase {cf} {hp} {ls} {rows} {en})", "check_fn": "pcheck", "py_fail": py_fail, "features": feats,
+            "nontrivial": len(terms) > 0 and len(ss) > 0}
+
+
 def run_case(c):
     kind = c["kind"]
     fixes = [(dec_label(l), float(F(v))) for l, v in c["fixes"]]
@@ -204,10 +279,14 @@ def run_case(c):
                 "nontrivial": bool(fixes) and len(before) > 0,
                 "observed": {"before": str(before), "after": str(after)}}
     py_fail = None
+    if kind == 'poly_composite':
+        return run_poly_composite(c, fixes, feats)
+    feats["nfixed"] = min(len(fixes), 2)
     if kind.startswith('bqm') or kind == 'qm':
         e = c["exprs"][0]
         if kind == 'qm':
-            m = gen.build_qm(e)
+            m = gen.build_qm(e, dtype=np.float32 if c.get("qdtype") == 'f32' else None)
+            feats["qdtype"] = c.get("qdtype", 'f64')
         else:
             m = gen.build_bqm(e, dtype={'bqm64': np.float64, 'bqm32': np.float32, 'bqmobj': object}[kind])
         handle = m
@@ -234,16 +313,30 @@ def run_case(c):
         snapshot = copy.deepcopy(cqm)
         raw_before = raw_mcqm(cqm, labels)
         fixed_idx = clist([cpair(cnat(vars_before.index(l)), cq(F(v))) for l, v in fixes])
+        form = c.get("fix_form", 'dict')
+        feats["fix_form"] = form
+        feats["expr_shuffled"] = any(e.get("shuffled") for e in c["exprs"])
+        arg = dict(fixes) if form == 'dict' else (list(fixes) if form == 'pairs' else (f for f in list(fixes)))
+        # the deprecated `cascade` keyword (does nothing but warn) is passed now and then
+        kw = {} if (len(fixes) + len(labels)) % 4 else {"cascade": bool(len(labels) % 2)}
+        feats["cascade_kw"] = bool(kw)
+        import warnings
+        warnings.simplefilter('ignore', DeprecationWarning)
         if kind == 'cqm_inplace':
             for f in fixes:
-                cqm.fix_variable(*f)
+                if cqm.fix_variable(*f, **kw) != {}:
+                    py_fail = "CQM.fix_variable did not return the (legacy) empty dict"
             new = cqm
         elif kind == 'cqm_inplace_many':
-            new = cqm.fix_variables(dict(fixes), inplace=True)
+            new = cqm.fix_variables(arg, inplace=True, **kw)
+            if new is not cqm:
+                py_fail = "fix_variables(inplace=True) did not return the receiver"
         else:
-            new = cqm.fix_variables(dict(fixes), inplace=False)
-            if not cqm.is_equal(snapshot) or list(cqm.variables) != vars_before:
+            new = cqm.fix_variables(arg, inplace=False, **kw)
+            if not cqm.is_equal(snapshot) or list(cqm.variables) != vars_before or raw_mcqm(cqm, labels) != raw_before:
                 py_fail = "fix_variables(inplace=False) modified the receiver"
+            if new is cqm:
+                py_fail = "fix_variables(inplace=False) returned the receiver"
         after = [gen.observe(x) for x in cqm_exprs(new, labels)]
         want = [v for v in vars_before if v not in dict(fixes)]
         if list(new.variables) != want:
@@ -256,6 +349,16 @@ def run_case(c):
             if (new.vartype(v), new.lower_bound(v), new.upper_bound(v)) != vinfo_before[v]:
                 py_fail = f"vartype/bounds of remaining variable {v!r} changed"
         raw_after = raw_mcqm(new, labels)
+        if kind == 'cqm_copy':
+            # the new model shares no state with the receiver: editing it leaves the receiver as it was
+            for v in list(new.variables):
+                try:
+                    new.fix_variable(v, 1)
+                except ValueError:
+                    pass
+            new.objective.offset += 1
+            if raw_mcqm(cqm, labels) != raw_before or list(cqm.variables) != vars_before:
+                py_fail = "editing the model returned by fix_variables(inplace=False) changed the receiver"
         feats["selfloop_fixed"] = any(u == v and u == enc_label(f[0]) for o in before for u, v, _ in o["quad"] for f in fixes)
     T = LabelTable([v[0] for v in c["allvars"]] if "allvars" in c else [])
     pairs = clist([cpair(coq_obs(b, T), coq_obs(a, T)) for b, a in zip(before, after)])
